@@ -377,7 +377,7 @@ pub fn main(seed: u64, tier: &str, only: Option<&str>) {
         run_wasm("replay", &out::unhex(h), g == "1", &mut stats);
         return;
     }
-    let n = if tier == "thorough" { 3000 } else { 240 };
+    let n = if tier == "thorough" { 3000 * crate::out::thorough_scale() } else { 240 };
     for case in 0..n {
         let mut rng = Rng::new(seed ^ 0x3a95, case as u64);
         let mut g = if case % 4 == 0 { GenCfg::mvp() } else if case % 4 == 1 { GenCfg::full() } else { GenCfg::random(&mut rng) };
